@@ -17,6 +17,20 @@ _DEBUG = bool(_os.environ.get("VF_DEBUG"))
 DT_MODES = (DebugTrail.DISABLE, DebugTrail.FIRST, DebugTrail.ALL)
 
 
+def realize(x):
+    """Under CrossHair: force the solver to pick concrete values for x (used before C-level constructors whose
+    CrossHair models are spurious: Decimal, complex, datetime parsing, str() of containers, re.compile).
+    Each realised value is one path; the alternatives are explored on further paths.  Natively: identity."""
+    import sys
+    if "crosshair" not in sys.modules:
+        return x
+    from crosshair import deep_realize
+    return deep_realize(x)
+
+
+inf = float("inf")
+nan = float("nan")
+
 # ---------------------------------------------------------------- outcome abstraction (4.2)
 
 def trail_of(e) -> tuple:
@@ -79,7 +93,51 @@ def same(a, b) -> bool:
             if not same(a[k], b[k]):
                 return False
         return True
+    if isinstance(a, (set, frozenset)):
+        return a == b and sorted(map(repr, map(type, a))) == sorted(map(repr, map(type, b)))
+    if isinstance(a, float):
+        return a == b or (a != a and b != b)
+    if isinstance(a, complex):
+        return same(a.real, b.real) and same(a.imag, b.imag)
     return a == b
+
+
+FLOAT_POOL = (0.0, 1.5, -2.25, 1e300, float("nan"), float("inf"), float("-inf"), 3.0)
+
+
+def pick(c, k: int) -> int:
+    """Concrete value of a selector 0 <= c < k via an if-chain (one solver-decided branch per value; measured ~4x fewer
+    paths than realising the int)."""
+    for i in range(k - 1):
+        if c == i:
+            return i
+    return k - 1
+
+
+def sel_atom(tag: int, n: int, c0: int, c1: int, c2: int, alpha: str, c3: int = 0):
+    """Selector-built concrete atom for C-boundary loaders:
+    tag 0 None | 1 bool | 2 int in [-3, 3] and +-10**400 | 3 float from FLOAT_POOL | 4 str over alpha, len n<=3 | 5 bytes len<=1.
+    Callers constrain 0<=tag<=5, 0<=n<=3, 0<=ci<len(alpha) (alpha has at least 9 characters)."""
+    tag = pick(tag, 6)
+    if tag == 0:
+        return None
+    if tag == 1:
+        return pick(c0, len(alpha)) % 2 == 1
+    if tag == 2:
+        c0 = pick(c0, len(alpha)) % 9
+        if c0 == 7:
+            return 10 ** 400
+        if c0 == 8:
+            return -(10 ** 400)
+        return c0 - 3
+    if tag == 3:
+        return FLOAT_POOL[pick(c0, len(alpha)) % len(FLOAT_POOL)]
+    n = pick(n, 5)
+    cs = [c0, c1, c2, c3][:(n if tag == 4 else min(n, 1))]
+    text = "".join(alpha[pick(c, len(alpha))] for c in cs)
+    if tag == 4:
+        return text
+    return text.encode("latin-1")
 
 
 def leaf_sig(e):
